@@ -35,8 +35,34 @@ def corpus(decls):
     E = lambda vs: ("enum", decls.add("enum", vs), vs)
     u8, b, u64 = ("u8",), ("bool",), ("u64",)
     e2 = E([u64, u64])
+    S = lambda fs: ("struct", decls.add("struct", fs), fs)
+    u16, u32, b256, u256 = ("u16",), ("u32",), ("b256",), ("u256",)
+    pair = ("tuple", [u64, u64])
+    # arrays of trivially decodable, wider-than-a-byte elements inside a NOT trivially decodable aggregate, followed by
+    # more fields: the reader must advance by N * size_of::<T>() for the later fields to be read at the right offset
+    after_array = [S([("array", u64, 2), u16]), ("tuple", [("array", b256, 1), b]), S([b, ("array", u64, 3), ("array", u8, 3), u32, ("vec", u64)]),
+                   ("tuple", [("array", u256, 2), ("str",)]), S([("array", pair, 2), u32, u64]), ("tuple", [u16, ("array", S([u64, b256]), 4), ("vec", u8)]),
+                   S([("array", ("array", u64, 2), 2), ("option", u64)]), ("vec", S([("array", u64, 2), u16]))]
     return [("tuple", [u8]), ("array", ("tuple", [u8]), 2), ("vec", ("tuple", [u8])), ("tuple", [b]), ("vec", ("tuple", [b])),
-            ("array", b, 3), ("vec", b), ("array", e2, 2), ("vec", e2), ("vec", u8), ("vec", ("u16",)), ("tuple", [("strarr", 3)])]
+            ("array", b, 3), ("vec", b), ("array", e2, 2), ("vec", e2), ("vec", u8), ("vec", ("u16",)), ("tuple", [("strarr", 3)])] + after_array
+
+
+def gen_after_array(rng, decls):
+    """Random member of the same family: { [prefix,] [wide trivially-decodable T; 1..4], non-trivial field, ... }."""
+    u64 = ("u64",)
+    elem = rng.choice([u64, ("b256",), ("u256",), ("tuple", [u64, u64]), ("array", u64, 2), "struct"])
+    if elem == "struct":
+        fs = [u64, rng.choice([u64, ("b256",)])]
+        elem = ("struct", decls.add("struct", fs), fs)
+    arr = ("array", elem, rng.randint(1, 4))
+    tail = [rng.choice([("u16",), ("bool",), ("u32",), ("str",), ("vec", ("u8",)), ("option", u64), ("string",)])]
+    while rng.random() < 0.4:
+        tail.append(rng.choice([("u16",), ("bool",), u64, ("u8",), ("b256",), ("vec", u64), ("strarr", 3)]))
+    head = [rng.choice([("bool",), ("u8",), u64, ("u16",)])] if rng.random() < 0.5 else []
+    fs = head + [arr] + tail
+    if rng.random() < 0.5:
+        return ("tuple", fs)
+    return ("struct", decls.add("struct", fs), fs)
 
 
 def gen_test(rng, i, t):
@@ -77,7 +103,7 @@ def run(ctx):
             ctx.violation("proof", {"theorems": [o for o in ctx.obligations if not o[1]], "log": out[-2000:]}, "C09 proofs do not check", no_input=True)
 
     base = os.path.join(ctx.work, "pkgs")
-    npk, per, maxd = (6, 14, 3) if ctx.quick else (48, 30, 6)
+    npk, per, maxd = (6, 15, 3) if ctx.quick else (48, 30, 6)
     pk, idx = [], 0
     plans = []
     for p in range(npk):
@@ -91,6 +117,9 @@ def run(ctx):
         tests, metas = [], []
         types = list(fixed)
         while len(types) < per:
+            if ctx.rng.random() < 0.25:
+                types.append(gen_after_array(ctx.rng, decls))
+                continue
             d = ctx.rng.choice([0, 1, 1, 2, 2, maxd, maxd])
             types.append(ag.gen_type(ctx.rng, d, decls, KINDS, LEAFS, max_fields=3))
         for t in types:
